@@ -172,10 +172,22 @@ inline void crash_handler(int sig) {
   _exit(3);
 }
 inline void install_crash_handler() {
-  signal(SIGSEGV, crash_handler);
+  // alternate stack: a stack overflow (unbounded recursion in the code under test) must still be reported
+  static char altstack[1 << 16];
+  stack_t ss;
+  ss.ss_sp = altstack;
+  ss.ss_size = sizeof altstack;
+  ss.ss_flags = 0;
+  sigaltstack(&ss, nullptr);
+  struct sigaction sa;
+  memset(&sa, 0, sizeof sa);
+  sa.sa_handler = crash_handler;
+  sa.sa_flags = SA_ONSTACK;
+  sigemptyset(&sa.sa_mask);
+  sigaction(SIGSEGV, &sa, nullptr);
+  sigaction(SIGBUS, &sa, nullptr);
   signal(SIGABRT, crash_handler);
   signal(SIGFPE, crash_handler);
-  signal(SIGBUS, crash_handler);
   signal(SIGILL, crash_handler);
   signal(SIGTERM, crash_handler);
   signal(SIGXCPU, crash_handler);
